@@ -1,6 +1,29 @@
 """Tables the driver reads: harness build specs and per-property batches."""
 
+def _fs_units():
+    cfgs = []   # (ct, N, layout, throw, thorough_only, weight)
+    for n in (1, 7, 16, 255):
+        for t in (0, 1):
+            cfgs.append(("char", n, 0, t, False, 4))
+    cfgs += [("char", 256, 1, 0, False, 4), ("char", 256, 1, 1, False, 4), ("char", 300, 1, 1, False, 3)]
+    for n in (8, 55):
+        for t in (0, 1):
+            cfgs.append(("char", n, 2, t, False, 4))
+    cfgs += [("char16_t", 8, 0, 0, False, 3), ("char16_t", 8, 0, 1, False, 3), ("char16_t", 300, 0, 0, False, 2)]
+    cfgs += [("char", 254, 0, 1, True, 2), ("char", 55, 0, 0, True, 2), ("char", 300, 2, 1, True, 2), ("char16_t", 70000, 1, 1, True, 1)]
+    lay = ["packed", "sizefield", "strlen"]
+    units = [dict(src="fstring_main.cpp")]
+    for ct, n, l, t, th, w in cfgs:
+        name = "%s_%s_%d_%s" % (lay[l], ct.replace("_t", ""), n, "throw" if t else "silent")
+        defs = ["FS_NAME=" + name, "FS_CT=" + ct, "FS_N=%d" % n, "FS_LAYOUT=%d" % l, "FS_THROW=%d" % t, "FS_WEIGHT=%d" % w]
+        if th:
+            defs.append("FS_THOROUGH")
+        units.append(dict(src="fstring_cfg.cpp", defs=defs))
+    return units
+
+
 HARNESSES = {
+    "fstring": dict(units=_fs_units()),
     "sysenv": dict(units=[dict(src="sysenv.cpp")], ldflags=["-Wl,--wrap=readlink"]),
 }
 
@@ -31,6 +54,62 @@ PROPS = {
     ),
 }
 
+_FS_COMPONENTS = dict(real=["include/xtl/xbasic_fixed_string.hpp (all three storage layouts, both error policies, char and char16_t)", "include/xtl/xhash.hpp"],
+                        stub=["std::basic_string reference model", "simulated streambufs (short reads, early EOF, throwing underflow, sink that fills up)",
+                              "dirty arena memory with canary/ASan red zones under every object", "exact-size heap blocks for every pointer/range argument"])
+_FS_ASSUME = ["std::basic_string of libstdc++ is the specification of every operation the two types share",
+              "documented deviations are modelled, not compared: resize(n) pads with ' ', moved-from strings keep their value, NUL-truncating paths are not compared on strings that contain NUL, silent policy never exceeds N (caller precondition), iterator arguments lie in [begin,end]",
+              "wchar_t/char32_t instantiations do not compile on this platform and are not exercised"]
+
+PROPS["C01"] = dict(
+    level="exploration",
+    batches=dict(
+        quick=[dict(harness="fstring", build="san", workload="c01", runs=400000, wall_cap=600)],
+        thorough=[dict(harness="fstring", build="san", workload="c01", runs=2000000, wall_cap=2400),
+                  dict(harness="fstring", build="plain", workload="c01", runs=8000000, offset=2000000, wall_cap=2400),
+                  dict(harness="fstring", build="plain", workload="c01", runs=300, offset=10000000, valgrind=True, workers=8, wall_cap=1200)],
+    ),
+    rule=("a case is one seeded history (1-40 operations, geometric) over three fixed strings of one instantiation (layout x N x char type x policy chosen per run) "
+          "and their std::basic_string models; every public member/free function overload is an operation; arguments are interpreted modulo the model state with boundary bias; "
+          "swarm options per run: argument aliasing, embedded NUL through counted overloads, stream faults, disabled operation families. "
+          "Non-trivial: at least two state-changing steps and, if the plan attaches stream faults, at least one delivered. Distinct: distinct run digests "
+          "(FNV-1a over operation, outcome, returned values and the observable state of all three strings after every step)."),
+    probes=["reached_len_N", "op_at_len_N", "iterator_insert_at_end", "iterator_replace_empty_range", "search_with_defaulted_position",
+            "strlen_layout_op_with_stale_bytes", "N255_default_constructed", "stream_short_reads", "stream_early_eof_reached",
+            "stream_underflow_threw", "stream_sink_refused", "aliasing_op", "strlen_layout_resize_grow"],
+    components=_FS_COMPONENTS, assumptions=_FS_ASSUME,
+)
+PROPS["C02"] = dict(
+    level="exploration",
+    batches=dict(
+        quick=[dict(harness="fstring", build="san", workload="c02", runs=300000, wall_cap=600)],
+        thorough=[dict(harness="fstring", build="san", workload="c02", runs=2000000, wall_cap=2400),
+                  dict(harness="fstring", build="plain", workload="c02", runs=8000000, offset=2000000, wall_cap=2400),
+                  dict(harness="fstring", build="plain", workload="c02", runs=300, offset=10000000, valgrind=True, workers=8, wall_cap=1200)],
+    ),
+    rule=("as C01 but only throwing-policy instantiations; positions are drawn from {0..N+2, npos} and counts may exceed the room left; frequent fill steps bring a string to length N-1 or N. "
+          "Before each call the std::basic_string model predicts out_of_range / length_error / success; the exception type must match and after an exception every string must equal its model (unchanged). "
+          "Canary-filled, ASan-poisoned red zones surround every object; pointer and range arguments live in exact-size heap blocks. "
+          "Non-trivial: at least two state-changing steps (a rejected call counts). Distinct: distinct run digests."),
+    probes=["length_error_observed", "out_of_range_observed", "exception_at_len_N", "exception_at_len_N-1", "op_at_len_N"],
+    components=_FS_COMPONENTS, assumptions=_FS_ASSUME + ["when a bad position and an over-long result apply to the same call either exception is accepted"],
+)
+PROPS["C14"] = dict(
+    level="exploration",
+    batches=dict(
+        quick=[dict(harness="fstring", build="san", workload="c14", runs=300000, wall_cap=600)],
+        thorough=[dict(harness="fstring", build="san", workload="c14", runs=2000000, wall_cap=2400),
+                  dict(harness="fstring", build="plain", workload="c14", runs=8000000, offset=2000000, wall_cap=2400)],
+    ),
+    rule=("(i) history half: C01-style histories in which std::hash of every string is compared after every step with the reference MurmurHash64A of the model characters (char), "
+          "and 'hash' steps drive a second string to equal content through a detour that leaves different stale bytes, or rebuild the content in other layouts/capacities, and require equal hashes. "
+          "(ii) pure half, evaluated on simulated buffers only: hash_bytes/murmur2_x86/murmur2_x64 on the model bytes copied into exact-size heap blocks at alignments 0..7 and in place in the arena, "
+          "seeds from the plan, against an independently written reference (counter c14.byte_hash_evaluations). "
+          "Non-trivial: at least two state-changing steps. Distinct: distinct run digests (include every hash value)."),
+    probes=["hash_with_stale_bytes", "hash_cross_layout", "hash_whole_blocks", "hash_four_blocks_or_more"],
+    components=_FS_COMPONENTS, assumptions=_FS_ASSUME + ["std::hash<xbasic_fixed_string<char16_t>> hashes size() bytes, i.e. half the characters; that is a deterministic function of size() and the characters, so only cross-history equality is required for char16_t"],
+)
+
 PENDING = "claimed in DESIGN.md section 4 but its harness is not built yet in this tree; listed here until the check exists"
 NOT_APPLICABLE = {
     "C04": "pure function of the operands of one call (presence flags and values); no history, fault position, schedule or environment to simulate (DESIGN.md 5)",
@@ -48,6 +127,24 @@ for _p in ["C01", "C02", "C03", "C05", "C06", "C07", "C11", "C12", "C14", "C17"]
         NOT_APPLICABLE[_p] = PENDING
 
 MANIFEST_TEXT = {
+    "C01": dict(
+        text="seeded histories over every public operation of xbasic_fixed_string in all three storage layouts, both error policies, char and char16_t, compared step by step (returned values and full observable state, through every access path) with std::basic_string; objects live in dirty, red-zoned simulator memory; stream operations run on simulated streambufs with injected short reads, early EOF, read errors and a sink that fills up",
+        design_ref="4.1",
+        note="sampled histories, not a proof; std::basic_string is the specification; documented deviations (resize padding, NUL-truncating paths, silent-policy preconditions) are modelled rather than compared",
+        technique="deterministic simulation: seeded operation histories against an executable reference model, stream fault injection, dirty-memory placement",
+    ),
+    "C02": dict(
+        text="same simulator restricted to the throwing policy, with positions in {0..N+2,npos}, counts exceeding the room, and states biased to length N-1/N: the model predicts which exception must be thrown, the object must equal its model after the exception (nothing changed), and ASan red zones plus canaries around every object and exact-size argument blocks catch any access outside the buffer or the argument ranges",
+        design_ref="4.2",
+        note="sampled; an exception that is rejected half-way is xtl's analogue of a crash point; when both conditions apply either exception is accepted",
+        technique="deterministic simulation with fault injection: rejected operations as crash points, failure-atomicity oracle, red-zone containment",
+    ),
+    "C14": dict(
+        text="hash coherence across simulated histories: std::hash of every fixed string equals the reference MurmurHash64A of its characters after every step, equal contents reached by different histories (different stale bytes), in different layouts and capacities hash equally; the byte hashes are additionally evaluated on the buffers the simulation produces at every alignment in exact-size blocks against an independent reference (that half is evaluation of a pure function on simulated states and is reported under its own counter)",
+        design_ref="4.9",
+        note="the pure half is sampled evaluation of a pure function, not more; little-endian 64-bit platform only",
+        technique="deterministic simulation: hash invariants over seeded histories, placement/alignment/stale-byte variation, independent reference implementation",
+    ),
     "C20": dict(
         text="fault enumeration inside seeded histories: every /proc/self/exe target length 2..PATH_MAX-1 is delivered through the wrapped readlink (sweep configuration), each also with an injected error return, plus seeded random histories biased to the buffer boundaries; results compared byte for byte with the simulated target, under ASan/UBSan and in a plain build with a dirtied stack",
         design_ref="4.11",
